@@ -183,7 +183,14 @@ Section Inv.
 Variable p : program.
 Variable rk : node -> nat.
 
-Record MInvE (Ex : node -> Prop) (X : list node) (inp : inputs) (s : state) : Prop := {
+(** the executions of the running operation are justified: a node executed since the state [s0]
+    at which the operation started was not stored then, or held an observation that is not the
+    from-scratch value any more *)
+Definition JustAt (s0 : state) (inp : inputs) (m : node) : Prop :=
+  get_info s0 m = None \/
+  exists i cal x, get_info s0 m = Some i /\ obsV i cal x /\ ~ MSpecI p inp cal x.
+
+Record MInvE (s0 : state) (Ex : node -> Prop) (X : list node) (inp : inputs) (s : state) : Prop := {
   mi_kind : forall n i, get_info s n = Some i ->
      (nkind n = KInput /\ i_fwd i = [] /\ i_obs i = [] /\ i_tfc i = [] /\
       input_get inp (nidx n) = Some (i_value i))
@@ -215,24 +222,34 @@ Record MInvE (Ex : node -> Prop) (X : list node) (inp : inputs) (s : state) : Pr
             (nkind x <> KInput /\
              forall c, In c (callers_of s x) -> sdirty s c x /\ (thru c -> In c (s_visited s)));
   mi_X : forall x, In x X -> nkind x = KProjection /\ (sverified s x \/ StaleX s x);
+  (* bookkeeping relative to the state [s0] at which the running operation started *)
+  mi_J : forall m, In m (s_log s) -> JustAt s0 inp m;
+  mi_U : forall m, sverified s m \/ get_info s m = get_info s0 m;
+  mi_O : forall m i, get_info s m = Some i ->
+           In m (s_log s) \/ exists i0, get_info s0 m = Some i0 /\ forall d x, obsV i d x <-> obsV i0 d x;
 }.
 
 Hypothesis Hrk : forall n e d, alookup p n = Some e -> In d (expr_reads e) -> (rk d < rk n)%nat.
 
-Lemma MInv_init : forall Ex, MInvE Ex [] [] init_state.
+Lemma MInv_init : forall Ex, MInvE init_state Ex [] [] init_state.
 Proof.
   intro Ex. split; try (intros; discriminate); try (intros; contradiction).
   - intros n d. cbn. tauto.
   - intros n [i [H _]]. discriminate.
   - intros n F [i [H _]]. discriminate.
+  - intro m. right. reflexivity.
 Qed.
 
-Lemma MInv_same : forall Ex X inp s s',
+Lemma MInv_same2 : forall s0 s0' Ex X inp s s',
   s_nodes s' = s_nodes s -> s_bwd s' = s_bwd s -> s_dirty s' = s_dirty s -> s_ts s' = s_ts s ->
   (s_visited s' = s_visited s \/ s_visited s' = []) ->
-  MInvE Ex X inp s -> MInvE Ex X inp s'.
+  (forall m, In m (s_log s') -> JustAt s0' inp m) ->
+  (forall m, sverified s' m \/ get_info s' m = get_info s0' m) ->
+  (forall m i, get_info s' m = Some i ->
+     In m (s_log s') \/ exists i0, get_info s0' m = Some i0 /\ forall d x, obsV i d x <-> obsV i0 d x) ->
+  MInvE s0 Ex X inp s -> MInvE s0' Ex X inp s'.
 Proof.
-  intros Ex X inp s s' Hn Hb Hd Ht Hv HI.
+  intros s0 s0' Ex X inp s s' Hn Hb Hd Ht Hv HJ HU HO HI.
   assert (Hg : forall m, get_info s' m = get_info s m) by (intro m; unfold get_info; rewrite Hn; reflexivity).
   assert (Hf : forall m, old_fwd s' m = old_fwd s m) by (apply msn_fwd; exact Hg).
   assert (Hc : forall m, callers_of s' m = callers_of s m) by (intro m; unfold callers_of; rewrite Hb; reflexivity).
@@ -263,51 +280,86 @@ Proof.
       rewrite Hv. exact K2.
   - intros x Hx. destruct (mi_X0 x Hx) as [K1 K2]. split; [exact K1|].
     destruct K2 as [K2|K2]; [left; apply Hsv; exact K2|right; apply (msn_StaleX _ _ Hg Ht); exact K2].
+  - exact HJ.
+  - exact HU.
+  - exact HO.
 Qed.
 
-Lemma MInv_log : forall Ex X inp s l, MInvE Ex X inp s -> MInvE Ex X inp (set_log s l).
-Proof. intros Ex X inp s l H. eapply MInv_same; [| | | | |exact H]; try reflexivity. left. reflexivity. Qed.
-Lemma MInv_restart : forall Ex X inp s, MInvE Ex X inp s -> MInvE Ex X inp (restart s).
-Proof. intros Ex X inp s H. eapply MInv_same; [| | | | |exact H]; try reflexivity. right. reflexivity. Qed.
 
-Lemma mfwd_reads : forall Ex X inp s n i e d, MInvE Ex X inp s -> get_info s n = Some i -> alookup p n = Some e ->
+Lemma MInv_same : forall s0 Ex X inp s s',
+  s_nodes s' = s_nodes s -> s_bwd s' = s_bwd s -> s_dirty s' = s_dirty s -> s_ts s' = s_ts s ->
+  (s_visited s' = s_visited s \/ s_visited s' = []) ->
+  (forall m, In m (s_log s') -> In m (s_log s) \/ JustAt s0 inp m) ->
+  (forall m, In m (s_log s) -> In m (s_log s')) ->
+  MInvE s0 Ex X inp s -> MInvE s0 Ex X inp s'.
+Proof.
+  intros s0 Ex X inp s s' Hn Hb Hd Ht Hv HlJ HlO HI.
+  assert (Hg : forall m, get_info s' m = get_info s m) by (intro m; unfold get_info; rewrite Hn; reflexivity).
+  apply (MInv_same2 s0 s0 Ex X inp s s' Hn Hb Hd Ht Hv); [| | |exact HI].
+  - intros m Hm. destruct (HlJ m Hm) as [K|K]; [eapply mi_J; eauto|exact K].
+  - intro m. rewrite Hg. destruct (mi_U _ _ _ _ _ HI m) as [K|K]; [left; apply (msn_verified _ _ Hg Ht); exact K|right; exact K].
+  - intros m i. rewrite Hg. intro Hi. destruct (mi_O _ _ _ _ _ HI m i Hi) as [K|K]; [left; apply HlO; exact K|right; exact K].
+Qed.
+
+Lemma MInv_log_push : forall s0 Ex X inp s n, MInvE s0 Ex X inp s -> JustAt s0 inp n ->
+  MInvE s0 Ex X inp (set_log s (n :: s_log s)).
+Proof.
+  intros s0 Ex X inp s n H HJ. eapply MInv_same; [| | | | | | |exact H]; try reflexivity.
+  - left. reflexivity.
+  - intros m [<-|Hm]; [right; exact HJ|left; exact Hm].
+  - intros m Hm. right. exact Hm.
+Qed.
+
+(** a new operation starts: the bookkeeping is relative to the state with the emptied log *)
+Lemma MInv_rebase : forall s0 Ex X inp s s',
+  s_nodes s' = s_nodes s -> s_bwd s' = s_bwd s -> s_dirty s' = s_dirty s -> s_ts s' = s_ts s ->
+  (s_visited s' = s_visited s \/ s_visited s' = []) -> s_log s' = [] ->
+  MInvE s0 Ex X inp s -> MInvE s' Ex X inp s'.
+Proof.
+  intros s0 Ex X inp s s' Hn Hb Hd Ht Hv Hl HI. apply (MInv_same2 s0 s' Ex X inp s s' Hn Hb Hd Ht Hv); [| | |exact HI].
+  - intros m Hm. rewrite Hl in Hm. destruct Hm.
+  - intro m. right. reflexivity.
+  - intros m i Hi. right. exists i. split; [exact Hi|]. intros. reflexivity.
+Qed.
+
+Lemma mfwd_reads : forall s0 Ex X inp s n i e d, MInvE s0 Ex X inp s -> get_info s n = Some i -> alookup p n = Some e ->
   In d (all_callees (i_fwd i)) -> In d (expr_reads e).
 Proof.
-  intros Ex X inp s n i e d HI Hi He Hd. destruct (mi_kind _ _ _ _ HI n i Hi) as [(_ & K & _)|(_ & e0 & l & He0 & Hev & Hl)].
+  intros s0 Ex X inp s n i e d HI Hi He Hd. destruct (mi_kind _ _ _ _ _ HI n i Hi) as [(_ & K & _)|(_ & e0 & l & He0 & Hev & Hl)].
   - rewrite K in Hd. destruct Hd.
   - assert (e0 = e) by congruence. subst e0. eapply evr_reads; eauto. apply Hl. exact Hd.
 Qed.
-Lemma mfwd_rk : forall Ex X inp s n d, MInvE Ex X inp s -> In d (old_fwd s n) -> (rk d < rk n)%nat.
+Lemma mfwd_rk : forall s0 Ex X inp s n d, MInvE s0 Ex X inp s -> In d (old_fwd s n) -> (rk d < rk n)%nat.
 Proof.
-  intros Ex X inp s n d HI Hd. unfold old_fwd in Hd. destruct (get_info s n) as [i|] eqn:Hi; [|destruct Hd].
-  destruct (mi_kind _ _ _ _ HI n i Hi) as [(_ & K & _)|(_ & e & l & He & Hev & Hl)].
+  intros s0 Ex X inp s n d HI Hd. unfold old_fwd in Hd. destruct (get_info s n) as [i|] eqn:Hi; [|destruct Hd].
+  destruct (mi_kind _ _ _ _ _ HI n i Hi) as [(_ & K & _)|(_ & e & l & He & Hev & Hl)].
   - rewrite K in Hd. destruct Hd.
   - eapply Hrk; eauto. eapply evr_reads; eauto. apply Hl. exact Hd.
 Qed.
-Lemma tpath_rk : forall Ex X inp s n x, MInvE Ex X inp s -> tpath s n x -> (rk x <= rk n)%nat.
+Lemma tpath_rk : forall s0 Ex X inp s n x, MInvE s0 Ex X inp s -> tpath s n x -> (rk x <= rk n)%nat.
 Proof.
-  intros Ex X inp s n x HI H. induction H; [lia|]. pose proof (mfwd_rk _ _ _ _ _ _ HI H). lia.
+  intros s0 Ex X inp s n x HI H. induction H; [lia|]. pose proof (mfwd_rk _ _ _ _ _ _ _ HI H). lia.
 Qed.
-Lemma tpath_stored : forall Ex X inp s n x, MInvE Ex X inp s -> get_info s n <> None -> tpath s n x -> get_info s x <> None.
+Lemma tpath_stored : forall s0 Ex X inp s n x, MInvE s0 Ex X inp s -> get_info s n <> None -> tpath s n x -> get_info s x <> None.
 Proof.
-  intros Ex X inp s n x HI Hn H. induction H; [exact Hn|]. apply IHtpath. eapply mi_target; eauto.
+  intros s0 Ex X inp s n x HI Hn H. induction H; [exact Hn|]. apply IHtpath. eapply mi_target; eauto.
 Qed.
-Lemma minput_no_fwd : forall Ex X inp s n, MInvE Ex X inp s -> nkind n = KInput -> old_fwd s n = [].
+Lemma minput_no_fwd : forall s0 Ex X inp s n, MInvE s0 Ex X inp s -> nkind n = KInput -> old_fwd s n = [].
 Proof.
-  intros Ex X inp s n HI K. unfold old_fwd. destruct (get_info s n) as [i|] eqn:Hi; [|reflexivity].
-  destruct (mi_kind _ _ _ _ HI n i Hi) as [(_ & F & _)|(K2 & _)]; [rewrite F; reflexivity|].
+  intros s0 Ex X inp s n HI K. unfold old_fwd. destruct (get_info s n) as [i|] eqn:Hi; [|reflexivity].
+  destruct (mi_kind _ _ _ _ _ HI n i Hi) as [(_ & F & _)|(K2 & _)]; [rewrite F; reflexivity|].
   rewrite K in K2. discriminate.
 Qed.
-Lemma mstored_kind : forall Ex X inp s n i, MInvE Ex X inp s -> get_info s n = Some i ->
+Lemma mstored_kind : forall s0 Ex X inp s n i, MInvE s0 Ex X inp s -> get_info s n = Some i ->
   nkind n = KInput \/ nkind n = KFirewall \/ tkind n.
 Proof.
-  intros Ex X inp s n i HI Hi. destruct (mi_kind _ _ _ _ HI n i Hi) as [(K & _)|(K & _)]; [auto|].
+  intros s0 Ex X inp s n i HI Hi. destruct (mi_kind _ _ _ _ _ HI n i Hi) as [(K & _)|(K & _)]; [auto|].
   unfold tkind. destruct (nkind n); try discriminate; auto.
 Qed.
-Lemma thru_stored : forall Ex X inp s n i, MInvE Ex X inp s -> get_info s n = Some i -> thru n ->
+Lemma thru_stored : forall s0 Ex X inp s n i, MInvE s0 Ex X inp s -> get_info s n = Some i -> thru n ->
   nkind n = KInput \/ tkind n.
 Proof.
-  intros Ex X inp s n i HI Hi Hn. destruct (mstored_kind _ _ _ _ _ _ HI Hi) as [K|[K|K]]; auto. contradiction.
+  intros s0 Ex X inp s n i HI Hi Hn. destruct (mstored_kind _ _ _ _ _ _ _ HI Hi) as [K|[K|K]]; auto. contradiction.
 Qed.
 Lemma tkind_thru : forall n, tkind n -> thru n.
 Proof. intros n [K|K]; unfold thru; rewrite K; discriminate. Qed.
@@ -315,34 +367,34 @@ Lemma input_thru : forall n, nkind n = KInput -> thru n.
 Proof. intros n K. unfold thru. rewrite K. discriminate. Qed.
 
 (** the transitive firewall callees recorded for a consistent node contain every reachable firewall *)
-Lemma MGood_tfc : forall Ex X inp s, MInvE Ex X inp s -> forall d x, tpath s d x ->
+Lemma MGood_tfc : forall s0 Ex X inp s, MInvE s0 Ex X inp s -> forall d x, tpath s d x ->
   MGood s d -> forall F i, In F (old_fwd s x) -> nkind F = KFirewall -> get_info s d = Some i -> In F (i_tfc i).
 Proof.
-  intros Ex X inp s HI d x H. induction H as [n|n d x Hd Hnf Hp IH]; intros HG F i HF KF Hi.
+  intros s0 Ex X inp s HI d x H. induction H as [n|n d x Hd Hnf Hp IH]; intros HG F i HF KF Hi.
   - destruct (HG n (tp_refl s n) F HF) as (i0 & j & v & t & A & B & C & _).
-    assert (i0 = i) by congruence. subst i0. apply (proj1 (mi_tfc _ _ _ _ HI n i F v t Hi C)). exact KF.
+    assert (i0 = i) by congruence. subst i0. apply (proj1 (mi_tfc _ _ _ _ _ HI n i F v t Hi C)). exact KF.
   - destruct (HG n (tp_refl s n) d Hd) as (i0 & j & v & t & A & B & C & _ & E).
     assert (i0 = i) by congruence. subst i0.
     assert (Kd : tkind d).
-    { destruct (thru_stored _ _ _ _ _ _ HI B Hnf) as [K|K]; [|exact K].
-      pose proof (minput_no_fwd _ _ _ _ _ HI K) as E0. inversion Hp; subst; [rewrite E0 in HF; destruct HF|].
+    { destruct (thru_stored _ _ _ _ _ _ _ HI B Hnf) as [K|K]; [|exact K].
+      pose proof (minput_no_fwd _ _ _ _ _ _ HI K) as E0. inversion Hp; subst; [rewrite E0 in HF; destruct HF|].
       match goal with H : In _ (old_fwd s d) |- _ => rewrite E0 in H; destruct H end. }
     assert (In F (i_tfc j)) by (eapply IH; eauto; eapply MGood_step; eauto).
-    apply (proj2 (mi_tfc _ _ _ _ HI n i d v t Hi C) Kd). apply (E Hnf). assumption.
+    apply (proj2 (mi_tfc _ _ _ _ _ HI n i d v t Hi C) Kd). apply (E Hnf). assumption.
 Qed.
-Lemma MGood_reach_tfc : forall Ex X inp s d i F, MInvE Ex X inp s -> MGood s d -> mreach s d F ->
+Lemma MGood_reach_tfc : forall s0 Ex X inp s d i F, MInvE s0 Ex X inp s -> MGood s d -> mreach s d F ->
   get_info s d = Some i -> In F (i_tfc i).
-Proof. intros Ex X inp s d i F HI HG [x (A & B & C)] Hi. eapply MGood_tfc; eauto. Qed.
+Proof. intros s0 Ex X inp s d i F HI HG [x (A & B & C)] Hi. eapply MGood_tfc; eauto. Qed.
 
 Lemma fw_or_thru : forall n, nkind n = KFirewall \/ thru n.
 Proof. intro n. destruct (thru_dec n); auto. left. unfold thru in n0. destruct (nkind n); try (exfalso; apply n0; discriminate). reflexivity. Qed.
 
 (** a consistent node whose reachable firewalls are verified holds its from-scratch value *)
-Lemma MSolid_value : forall Ex X inp s, MInvE Ex X inp s -> forall k d i, (rk d < k)%nat ->
+Lemma MSolid_value : forall s0 Ex X inp s, MInvE s0 Ex X inp s -> forall k d i, (rk d < k)%nat ->
   get_info s d = Some i -> MSolid s d -> MSpecI p inp d (i_value i).
 Proof.
-  intros Ex X inp s HI. induction k as [|k IH]; intros d i Hk Hi [HG HR]; [lia|].
-  destruct (mi_kind _ _ _ _ HI d i Hi) as [(K1 & _ & _ & _ & K5)|(K1 & e & l & He & Hev & Hl)].
+  intros s0 Ex X inp s HI. induction k as [|k IH]; intros d i Hk Hi [HG HR]; [lia|].
+  destruct (mi_kind _ _ _ _ _ HI d i Hi) as [(K1 & _ & _ & _ & K5)|(K1 & e & l & He & Hev & Hl)].
   - apply MSpecI_input; assumption.
   - eapply MSpecI_exec; eauto. eapply ev_msev; [eapply evr_ev; exact Hev|].
     intros y v _ [t Ho].
@@ -354,14 +406,14 @@ Proof.
     + destruct (HR y (mreach_direct _ _ _ Hy Ky)) as [j' [B' V']].
       assert (j' = j) by congruence. subst j'. eapply mi_V; eauto.
     + apply IH; auto.
-      * pose proof (mfwd_rk _ _ _ _ _ _ HI Hy). lia.
+      * pose proof (mfwd_rk _ _ _ _ _ _ _ HI Hy). lia.
       * eapply MSolid_step; eauto. split; assumption.
 Qed.
 
 (** a verified node is solid *)
-Lemma verified_Solid : forall Ex X inp s n, MInvE Ex X inp s -> sverified s n -> MSolid s n.
+Lemma verified_Solid : forall s0 Ex X inp s n, MInvE s0 Ex X inp s -> sverified s n -> MSolid s n.
 Proof.
-  intros Ex X inp s n HI Hv. split; [eapply mi_G; eauto|]. intros F HF. eapply mi_T; eauto.
+  intros s0 Ex X inp s n HI Hv. split; [eapply mi_G; eauto|]. intros F HF. eapply mi_T; eauto.
 Qed.
 
 (** a node with an inconsistent edge that is not excused has no clean edge above it *)
@@ -371,33 +423,33 @@ Lemma Stale_not_MGoodX : forall X s n x, Stale s n -> ~ In n X -> tpath s x n ->
 Proof.
   intros X s n x [cal [A B]] Hn Hp HG. destruct (HG n Hp) as [K|K]; [contradiction|]. apply B. apply K. exact A.
 Qed.
-Lemma Stale_callers_dirty : forall Ex X inp s n a, MInvE Ex X inp s -> Stale s n -> thru n -> ~ In n X ->
+Lemma Stale_callers_dirty : forall s0 Ex X inp s n a, MInvE s0 Ex X inp s -> Stale s n -> thru n -> ~ In n X ->
   In n (old_fwd s a) -> sdirty s a n.
 Proof.
-  intros Ex X inp s n a HI HS Hn HX Ha.
+  intros s0 Ex X inp s n a HI HS Hn HX Ha.
   destruct (in_dec edge_dec (a, n) (s_dirty s)) as [K|K]; [exact K|]. exfalso.
-  destruct (mi_C _ _ _ _ HI a n Ha K) as [_ G]. eapply Stale_not_MGoodX; eauto. constructor.
+  destruct (mi_C _ _ _ _ _ HI a n Ha K) as [_ G]. eapply Stale_not_MGoodX; eauto. constructor.
 Qed.
-Lemma StaleX_Stale : forall Ex X inp s n, MInvE Ex X inp s -> StaleX s n -> Stale s n.
+Lemma StaleX_Stale : forall s0 Ex X inp s n, MInvE s0 Ex X inp s -> StaleX s n -> Stale s n.
 Proof.
-  intros Ex X inp s n HI (cal & i & ci & v & t & A & B & C & D & E). exists cal. split.
+  intros s0 Ex X inp s n HI (cal & i & ci & v & t & A & B & C & D & E). exists cal. split.
   - unfold old_fwd. rewrite A. eapply mi_obs_fwd; eauto.
   - intros (i0 & j & v0 & t0 & A0 & B0 & C0 & D0 & _). apply E. congruence.
 Qed.
 
 (** * closing a window: excused projections that have been verified need no excuse *)
-Lemma MInv_close : forall Ex X Y inp s, MInvE Ex (X ++ Y) inp s -> (forall y, In y Y -> sverified s y) -> MInvE Ex X inp s.
+Lemma MInv_close : forall s0 Ex X Y inp s, MInvE s0 Ex (X ++ Y) inp s -> (forall y, In y Y -> sverified s y) -> MInvE s0 Ex X inp s.
 Proof.
-  intros Ex X Y inp s HI HY. destruct HI. split; auto.
+  intros s0 Ex X Y inp s HI HY. destruct HI. split; auto.
   - intros n d Hd Hc. destruct (mi_C0 n d Hd Hc) as [A B]. split; [exact A|]. intros K x Hx.
     destruct (B K x Hx) as [Kx|Kx]; [|right; exact Kx]. apply in_app_or in Kx. destruct Kx as [Kx|Kx]; [left; exact Kx|right].
     apply (mi_G0 x (HY x Kx) x (tp_refl s x)).
   - intros x Hx. apply mi_X0. apply in_or_app. left. exact Hx.
 Qed.
-Lemma MInv_open : forall Ex X Y inp s, MInvE Ex X inp s ->
-  (forall y, In y Y -> nkind y = KProjection /\ (sverified s y \/ StaleX s y)) -> MInvE Ex (X ++ Y) inp s.
+Lemma MInv_open : forall s0 Ex X Y inp s, MInvE s0 Ex X inp s ->
+  (forall y, In y Y -> nkind y = KProjection /\ (sverified s y \/ StaleX s y)) -> MInvE s0 Ex (X ++ Y) inp s.
 Proof.
-  intros Ex X Y inp s HI HY. destruct HI. split; auto.
+  intros s0 Ex X Y inp s HI HY. destruct HI. split; auto.
   - intros n d Hd Hc. destruct (mi_C0 n d Hd Hc) as [A B]. split; [exact A|]. intros K x Hx.
     destruct (B K x Hx) as [Kx|Kx]; [left; apply in_or_app; left; exact Kx|right; exact Kx].
   - intros x Hx. apply in_app_or in Hx. destruct Hx as [Hx|Hx]; [apply mi_X0; exact Hx|apply HY; exact Hx].
@@ -406,22 +458,22 @@ Hypothesis Hproj : forall n e d, alookup p n = Some e -> nkind n = KProjection -
   is_fw_or_proj (nkind d) = true.
 
 (** a projection records only firewalls and projections *)
-Lemma proj_fwd_kind : forall Ex X inp s n d, MInvE Ex X inp s -> nkind n = KProjection -> In d (old_fwd s n) ->
+Lemma proj_fwd_kind : forall s0 Ex X inp s n d, MInvE s0 Ex X inp s -> nkind n = KProjection -> In d (old_fwd s n) ->
   is_fw_or_proj (nkind d) = true.
 Proof.
-  intros Ex X inp s n d HI K Hd. unfold old_fwd in Hd. destruct (get_info s n) as [i|] eqn:Hi; [|destruct Hd].
-  destruct (mi_kind _ _ _ _ HI n i Hi) as [(K1 & _)|(_ & e & l & He & Hev & Hl)]; [congruence|].
+  intros s0 Ex X inp s n d HI K Hd. unfold old_fwd in Hd. destruct (get_info s n) as [i|] eqn:Hi; [|destruct Hd].
+  destruct (mi_kind _ _ _ _ _ HI n i Hi) as [(K1 & _)|(_ & e & l & He & Hev & Hl)]; [congruence|].
   eapply Hproj; eauto. eapply evr_reads; eauto. apply Hl. exact Hd.
 Qed.
-Lemma no_proj_caller : forall Ex X inp s x c, MInvE Ex X inp s -> is_fw_or_proj (nkind x) = false ->
+Lemma no_proj_caller : forall s0 Ex X inp s x c, MInvE s0 Ex X inp s -> is_fw_or_proj (nkind x) = false ->
   In c (callers_of s x) -> nkind c <> KProjection.
 Proof.
-  intros Ex X inp s x c HI Kx Hc K. apply (mi_bwd _ _ _ _ HI) in Hc.
-  rewrite (proj_fwd_kind _ _ _ _ _ _ HI K Hc) in Kx. discriminate.
+  intros s0 Ex X inp s x c HI Kx Hc K. apply (mi_bwd _ _ _ _ _ HI) in Hc.
+  rewrite (proj_fwd_kind _ _ _ _ _ _ _ HI K Hc) in Kx. discriminate.
 Qed.
 
 End Inv.
 
 Definition noE : node -> Prop := fun _ => False.
-Notation MInv p rk := (MInvE p rk noE).
+Notation MInv p rk s0 := (MInvE p rk s0 noE).
 
